@@ -7,5 +7,5 @@ D=$(mktemp -d /tmp/seedrun.XXXXXX)
 cp -r /repo/src "$D/src"
 ( cd "$D" && patch -p1 -s < "$PATCH" ) || { echo "PATCH DOES NOT APPLY"; rm -rf "$D"; exit 2; }
 cd /verif
-PYTHONPATH="$D/src" ./check "$PROP" --tier "$TIER" $EXTRA 2>&1 | grep -v "^KNOWN-FINDING" | tail -5 | cut -c1-200
+VERIF_NO_EVIDENCE=1 PYTHONPATH="$D/src" ./check "$PROP" --tier "$TIER" $EXTRA 2>&1 | grep -v "^KNOWN-FINDING" | tail -5 | cut -c1-200
 rm -rf "$D"
